@@ -193,6 +193,43 @@ theorem open_prefix_invariant (P : Parsers V T) (p f : Bytes) (fuel s : Nat) (t 
   | panic => simp [hs] at hopen
   | oof => simp [hs] at hopen
 
+/-- **C17 as one statement.** Loadable file, admissible prefix: the prefixed file loads, and every object
+    number — with any flags, any fuel — every stream's raw data, the version string and the scan listing
+    read the same (stream ranges `p.length` further on). -/
+theorem prefix_changes_nothing (P : Parsers V T) (p f : Bytes) (fuel s : Nat) (t : Xref.Table) (tr : T)
+    (hopen : openFile P fuel f = .ok (s, t, tr))
+    (hno : ∀ j, j < p.length → ¬ headerMarker <+: (p ++ f).drop j)
+    (hl : p.length + s + 5 ≤ 1024) (hfit : Fits p f) :
+    openFile P fuel (p ++ f) = .ok (p.length + s, t, tr) ∧
+    (∀ fuel' chain flags id,
+      resolveRef P (p ++ f) (p.length + s) t fuel' chain flags id
+        = shiftOut p.length (resolveRef P f s t fuel' chain flags id)) ∧
+    (∀ o : Obj V, rawData (p ++ f) (o.shift p.length) = rawData f o) ∧
+    version (p ++ f) (p.length + s) = version f s ∧
+    scan P (p ++ f) (p.length + s) =
+      (match scan P f s with
+       | .ok items => .ok (items.map (shiftOut p.length))
+       | .err => .err | .panic => .panic | .oof => .oof) := by
+  refine ⟨open_prefix_invariant P p f fuel s t tr hopen hno hl hfit,
+    fun fuel' chain flags id => resolveRef_append P p f s t hfit fuel' chain flags id,
+    fun o => rawData_shift p f o, version_prefix_invariant p f s, ?_⟩
+  -- the file has a `startxref`, otherwise it would not have opened
+  unfold openFile at hopen
+  cases hs : locateStart f with
+  | ok s' =>
+    simp only [hs] at hopen
+    cases hload : loadTable P fuel f s' with
+    | ok r =>
+      cases hk : findLast startxrefKw (f.take (f.length - 1)) with
+      | none => simp [loadTable, locateXref, hk] at hload
+      | some k => exact scan_append P p f s k hfit hk
+    | err => simp [hload] at hopen
+    | panic => simp [hload] at hopen
+    | oof => simp [hload] at hopen
+  | err => simp [hs] at hopen
+  | panic => simp [hs] at hopen
+  | oof => simp [hs] at hopen
+
 /-! ## What the code did before the repairs
 
 `scanOld` (D26) read `start .. xref_offset` — an end that is not relative to the header — numbered the
